@@ -42,8 +42,9 @@ TRUSTED_BASE = [
 ASSUMPTIONS = [
     "archives are intact (no exception inside a worker); one extraction per archive object (the repeated-extraction "
     "scenario is explored separately and reported)",
-    "member ids are contiguous inside each folder (no empty-stream entry between two data files of one folder of a "
-    "multi-folder archive): otherwise the known member-numbering defect applies (kind multifolder-empty-entry-id)",
+    "the model takes 'has a registered target' per member as data; the explored archives keep member ids contiguous "
+    "inside each folder (no empty-stream entry between two data files of a folder), so the member-numbering defect "
+    "(kind multifolder-empty-entry-id, repaired in /repo by a4d8f3b) plays no role",
     "the decoder honours max_length (chunks_ok) for the per-member statement sum(u) = size; the general statement "
     "sum(u) = bytes decoded needs only that the loop ends",
     "timing statements (all_before_close, close_returns_when_backlog_fits, the refuted limit) are about the timed "
@@ -255,8 +256,8 @@ def data_for(name, size):
 
 
 def build_archive(spec, target):
-    """spec = {"sessions": [{"chain": c, "entries": [[name, kind, size], ...]}, ...]}; kind in "file" | "dir".
-    Directories only in the first session (they are written from a staging directory)."""
+    """spec = {"sessions": [{"chain": c, "entries": [[name, kind, size], ...]}, ...]}; kind in "file" | "dir" | "link" (then the
+    third component is the link target).  Directories and links only in the first session (they are written from a staging directory)."""
     stage = tempfile.mkdtemp(prefix="c18stage")
     try:
         for si, s in enumerate(spec["sessions"]):
@@ -267,6 +268,12 @@ def build_archive(spec, target):
                         d = os.path.join(stage, "d%d" % len(os.listdir(stage)))
                         os.mkdir(d)
                         z.write(d, name)
+                    elif kind == "link":       # `size` is the link target (relative, inside the archive)
+                        d = os.path.join(stage, "l%d" % len(os.listdir(stage)))
+                        os.mkdir(d)
+                        open(os.path.join(d, size), "wb").close()      # py7zr reads only links whose target exists
+                        os.symlink(size, os.path.join(d, "lnk"))
+                        z.write(os.path.join(d, "lnk"), name)
                     else:
                         z.writestr(data_for(name, size), name)
     finally:
@@ -279,8 +286,8 @@ def spec_members(spec):
     for s in spec["sessions"]:
         fo = []
         for name, kind, size in s["entries"]:
-            m = {"id": len(members), "name": name, "size": 0 if kind == "dir" else size, "empty": kind == "dir",
-                 "dir": kind == "dir"}
+            m = {"id": len(members), "name": name, "empty": kind == "dir", "dir": kind == "dir",
+                 "size": 0 if kind == "dir" else len(size.encode("utf-8")) if kind == "link" else size}
             members.append(m)
             if not m["empty"]:
                 fo.append(m["id"])
@@ -495,7 +502,7 @@ def run_extraction(apath, case, sh, workdir):
             for dp, dns, fns in os.walk(outdir):
                 for n in fns:
                     p = os.path.join(dp, n)
-                    outs[os.path.relpath(p, outdir)] = os.path.getsize(p)
+                    outs[os.path.relpath(p, outdir)] = os.lstat(p).st_size
             obs["outputs"] = outs
     finally:
         P.time = _installed.get("time", _time)
@@ -785,8 +792,9 @@ def own_specs(rng, tier):
 
     def ses(chain, *entries):
         return {"chain": chain, "entries": [list(e) for e in entries]}
-    S.append({"sessions": [ses("lzma2", ("top", "dir", 0), ("top/a.txt", "file", 700), ("zero.bin", "file", 0),
-                               ("top/b.txt", "file", 1500), ("c.dat", "file", 33))]})
+    # the link comes before the writestr members (py7zr cannot write a link after a member without origin)
+    S.append({"sessions": [ses("lzma2", ("top", "dir", 0), ("top/lnk", "link", "a.txt"), ("top/a.txt", "file", 700),
+                               ("zero.bin", "file", 0), ("top/b.txt", "file", 1500), ("c.dat", "file", 33))]})
     S.append({"sessions": [ses("copy", ("only.txt", "file", 9))]})
     S.append({"sessions": [ses("copy", ("d1", "dir", 0), ("d1/d2", "dir", 0), ("d3", "dir", 0))]})
     S.append({"sessions": [ses("copy", ("r", "dir", 0), ("r/a1", "file", 40), ("r/a2", "file", 50)),
